@@ -872,6 +872,8 @@ where
                 )
             })?;
         }
+        #[cfg(feature = "verif")]
+        crate::verif::tap::path_op(crate::verif::tap::Kind::Rename, path, Some(&corrupted_path))?;
         tokio::fs::rename(&path, &corrupted_path)
             .await
             .with_context(|| {
@@ -887,6 +889,8 @@ where
     async fn remove_index_by_blob_path(path: &Path) -> Result<()> {
         let index_path = path.with_extension(blob::BLOB_INDEX_FILE_EXTENSION);
         if index_path.exists() {
+            #[cfg(feature = "verif")]
+            crate::verif::tap::path_op(crate::verif::tap::Kind::Remove, &index_path, None)?;
             tokio::fs::remove_file(&index_path)
                 .await
                 .with_context(|| anyhow!(format!("failed to remove file {:?}", index_path)))?;
@@ -989,6 +993,20 @@ where
     pub async fn force_update_active_blob(&self, predicate: ActiveBlobPred) {
         self.observer.force_update_active_blob(predicate).await;
         self.observer.try_dump_old_blob_indexes().await
+    }
+
+    /// Verification probe (feature `verif`): waits until the background worker has processed all
+    /// messages sent so far and finished the dump / fsync tasks it started (with `flush_deferred` also
+    /// a pending deferred index dump); `false` if the worker is dead
+    #[cfg(feature = "verif")]
+    pub async fn verif_barrier(&self, flush_deferred: bool) -> bool {
+        self.observer.verif_barrier(flush_deferred).await
+    }
+
+    /// Verification probe (feature `verif`): is the background worker task still running
+    #[cfg(feature = "verif")]
+    pub fn verif_worker_alive(&self) -> bool {
+        self.observer.verif_worker_alive()
     }
 
     fn launch_observer(&mut self) {
